@@ -18,7 +18,7 @@ def main():
     rnd = random.Random(R.seed)
     thorough = R.tier == 'thorough'
     R.assumptions = ['Coq kernel', 'hand-written model coq/DataUrl.v of uri/scheme/data.rs (delimiter parser + re-scanning accessors), tied to the code by this run',
-                     'URI validity of the text: the translated URI validator (C01)', 'base64 decoding is the external crate base64 0.22 (oracle: Python base64, strict)', 'Rust harness']
+                     'URI validity of the text: the translated URI validator (C01)', 'C18_scheme_is_data also rests on the scanner model coq/Parse.v / Parse2.v and the grammar factorisation of C02 (tied to the code by the C02 check)', 'base64 decoding is the external crate base64 0.22 (oracle: Python base64, strict)', 'Rust harness']
     props_check(R, 'C18')
     st = setup_check(R)
     if st is None:
